@@ -107,11 +107,35 @@ class Runner:
         return out
 
 
+def occurs_situation(system):
+    """Does Robinson's algorithm meet an occurs-check failure anywhere, when it skips failing equations and goes on?"""
+    from unify_util import walk, occurs, atom_key, leaf_key
+    s = {}
+    todo = list(reversed(system))
+    while todo:
+        a, b = todo.pop()
+        a, b = walk(a, s), walk(b, s)
+        if a[0] == 'v' and b[0] == 'v' and a[1] == b[1]:
+            continue
+        if a[0] == 'v' or b[0] == 'v':
+            if a[0] != 'v':
+                a, b = b, a
+            if occurs(a[1], b, s):
+                return True
+            s[a[1]] = b
+        elif a[0] == 'c' and b[0] == 'c' and atom_key(a[1]) == atom_key(b[1]) and len(a[2]) == len(b[2]):
+            for x, y in reversed(list(zip(a[2], b[2]))):
+                todo.append((x, y))
+    return False
+
+
 def judge(case, res, system, outs):
     """None if the engine's result is what the property demands, else (kind, detail)."""
     r, s = ref_unify(system)
     mode = case['mode']
     if res[0] == 'error':
+        if res[1] == 'RecursionError' and r != 'ok' and occurs_situation(system):
+            return None  # "fails or raises an error": a RecursionError on a cyclic structure is an error
         return 'engine raised %s' % res[1], ''
     if mode == 'neq':
         if res[0] == 'OccursCheck':
